@@ -5,6 +5,7 @@
 use crate::util::*;
 use std::io::Write;
 
+#[derive(Clone)]
 struct Case {
     which: &'static str,
     input: Vec<u8>,
@@ -256,7 +257,12 @@ fn gen_cases(args: &crate::Args) -> Vec<Case> {
 }
 
 pub fn run(args: &crate::Args) {
-    let cases = gen_cases(args);
+    let mut cases = gen_cases(args);
+    // the parsers are functions of their input: every case with a documented extent is presented a second
+    // time at the end, after the malformed stream, and must get the same (documented) answer — state kept
+    // between parses (a counter, a cache) would show here
+    let again: Vec<Case> = cases.iter().filter(|c| c.extent.is_some()).map(|c| Case { class: format!("again.{}", c.class), ..c.clone() }).collect();
+    cases.extend(again);
     let dir = &args.out;
     let mut req = std::io::BufWriter::new(std::fs::File::create(format!("{dir}/req.txt")).unwrap());
     let mut imp = std::io::BufWriter::new(std::fs::File::create(format!("{dir}/impl.txt")).unwrap());
